@@ -14,9 +14,11 @@ Inductive case :=
    endpoint and backend plugin configs, result of the backend proxy, observed log/result *)
 | CStack (s : sshape) (R : registry) (pe pb : pshape) (r : option resp) (e : err) (o : comp)
 (* values: via 0 = NewPluginMiddleware (pb unconfigured), 1 = NewBackendPluginMiddleware (pe
-   unconfigured), 2 = DefaultFactory; initial request trace v0, trace of the backend's response
+   unconfigured), 2 = DefaultFactory, 3 = DefaultFactory for a no-op endpoint; initial request trace v0, trace of the backend's response
    (None: the backend fails), observed: what every modifier and the backend saw, and the
    trace of the returned response *)
+(* the same through DefaultFactory for an endpoint with this output encoding ("no-op") *)
+| CStackEnc (enc : string) (s : sshape) (R : registry) (pe pb : pshape) (r : option resp) (e : err) (o : comp)
 | CThread (via : nat) (R : registry) (pe pb : pshape) (v0 : trace) (t0 : option trace)
           (o : list vevent * vresult).
 
@@ -30,6 +32,9 @@ Definition check_case (c : case) : bool * bool :=
        plugin_case_spec_b lv R p (backend_call r e) o)
   | CStack s R pe pb r e o =>
       (comp_eqb (endpoint_stack s R pe pb r e) o,
+       stack_spec_b s R pe pb r e o)
+  | CStackEnc enc s R pe pb r e o =>
+      (comp_eqb (factory_stack enc s R pe pb r e) o,
        stack_spec_b s R pe pb r e o)
   | CThread _ R pe pb v0 t0 o =>
       (vcomp_eqb (vstack R pe pb t0 v0) o, thread_spec_b R pe pb v0 t0 o)
